@@ -1154,6 +1154,8 @@ func rangeIter(x value) iter {
 		return &hashmapIter{iter: reflect.ValueOf(x.entries()).MapRange()}
 	case string:
 		return &stringIter{Reader: strings.NewReader(x)}
+	case *symstr:
+		return &symStrIter{b: x.b}
 	}
 	panic(fmt.Sprintf("cannot range over %T", x))
 }
